@@ -176,7 +176,11 @@ func genReplCase(r *rand.Rand) *jReplCase {
 	faults := 2 + r.Intn(5)
 	for fa := 0; fa < faults; fa++ {
 		f := r.Intn(F)
-		switch k := r.Intn(20); {
+		k := r.Intn(22)
+		if k >= 20 {
+			k = 11 // the kill between two tables' flushes is the rarest in practice and the richest here
+		}
+		switch {
 		case k < 3:
 			if up[f] {
 				c.Steps = append(c.Steps, jRStep{Op: "flush", Node: f})
@@ -208,8 +212,14 @@ func genReplCase(r *rand.Rand) *jReplCase {
 			c.Steps = append(c.Steps, jRStep{Op: "snap", Node: f})
 			snaps[f]++
 		case k < 12:
-			// the process dies when only one of its two tables has been flushed
-			if up[f] {
+			// the process dies when only one of its two tables has been flushed; half of the time the other table has
+			// an older flush behind it, so that the two tables restart from different offsets
+			if up[f] && !cut[f] && anyUp() {
+				if r.Intn(2) == 0 {
+					c.Steps = append(c.Steps, jRStep{Op: "waitnode", Node: f}, jRStep{Op: "flush", Node: f})
+					ins(6)
+					c.Steps = append(c.Steps, jRStep{Op: "waitnode", Node: f})
+				}
 				c.Steps = append(c.Steps, jRStep{Op: "killpart", Node: f, K: r.Intn(2)})
 				up[f] = false
 			}
@@ -323,7 +333,7 @@ func (c *jReplCase) normalize() {
 			if !lup[st.Src] || len(pts) == 0 {
 				continue
 			}
-		case "flush", "slow":
+		case "flush", "slow", "waitnode":
 			if !up[st.Node] {
 				continue
 			}
@@ -556,6 +566,16 @@ func execRepl(e *Env, c *jReplCase, wantDB bool) (*replRun, []string, error) {
 			if n.db != nil {
 				n.db.FlushAll()
 			}
+		case "waitnode":
+			// give the node up to 8 s to receive what has been accepted so far (it may be cut off: then it cannot)
+			if n.db != nil {
+				for dl := time.Now().Add(8 * time.Second); time.Now().Before(dl); time.Sleep(50 * time.Millisecond) {
+					cl.advanceClocks(rr.maxTS)
+					if o, err := rr.observeTid(n); err == nil && eq64(o, rr.expected(n)) {
+						break
+					}
+				}
+			}
 		case "stop":
 			cl.stopFollower(n)
 		case "kill":
@@ -737,6 +757,8 @@ func (c *jReplCase) Gal() string {
 			if len(st.Pts)%2 == 1 {
 				ops = append(ops, "HDrain")
 			}
+		case "waitnode":
+			ops = append(ops, "HDrain")
 		case "flush":
 			ops = append(ops, fmt.Sprintf("HOp (OnFollower (Flush %s))", nat(st.Node)))
 		case "stop":
